@@ -10,7 +10,7 @@ from twisted.python import failure
 from . import sim
 
 FACTOR = 1.20205
-EARLIEST, LATEST, COMMITTED = -2, -1, -1001
+EARLIEST, LATEST, COMMITTED = -2, -1, -101      # afkak.common.OFFSET_*
 
 
 def make_cfg(name, log, block_n, auto_t, group, max_attempts, reset, sync, max_buf):
